@@ -31,6 +31,48 @@ CLAIMED = {
         "Trusted: rapid, the fake gateway clientset, scripted elector / lister stubs, the validity predicate written from the statement. Instances are honest (echo the last answer).",
         "DESIGN.md 4/C07",
     ),
+    "C05": (
+        "model-based testing of acquire/release/reconfiguration histories on the real UpstreamLimiter (rapid state machine, ledger oracle)",
+        "Generated-input search: histories of acquire (GetOrDefault+TryAcquire as the dispatcher does), release-exactly-once, reconfiguration (resize, type changes between max-in-flight / token bucket / exempt, delete, re-add) and drain+probe over two clusters x two schemas; a ledger of admitted-unfinished requests per schema incarnation is the oracle (admission only below M, exactly M after a drain, no cross-schema / cross-cluster influence). Concurrent interleavings of the atomic bucket and the HTTP-level exit paths are not covered by this check yet. Exploration.",
+        "Trusted: rapid, the ledger model. Operations are interleaved at call granularity, not at instruction granularity.",
+        "DESIGN.md 4/C05",
+    ),
+    "C06": (
+        "property-based testing of generated arrival plans with a timestamp-bracketed window oracle (rapid)",
+        "Generated-input search: (qps, burst) and plans of bursts from 1-8 goroutines, pauses and reconfigurations are executed against the real limiter (GetOrDefault+TryAcquire); for every window inside one configuration admitted <= burst + qps*T with T measured from outer timestamps (can only loosen), and after a measured idle time the first min(burst, floor(qps*t)) calls are admitted. Exploration; time is a measured input, not controlled.",
+        "Trusted: monotonic clock, rapid. A bound violation smaller than scheduling noise cannot be seen; the oracle cannot false-alarm because delays only enlarge T.",
+        "DESIGN.md 4/C06",
+    ),
+    "C08": (
+        "model-based testing of SetState/Resize/removal histories against an accounting model + generated DoAcquire sequences on the real limiter (rapid)",
+        "Generated-input search: (a) sequential histories on NewGlobalFlowControl compared step by step with a model through DebugInfo (count == total == sum, details, returned counts, stale ids, decreases applied, sum <= max(limit, sum before)); (c) DoAcquire sequences for both schema types (negative asks refused, grant in {n,n/2,n/4,n/8}, window bound with bracketing timestamps, ledger == server total). Interleavings of racing reports/removals are not explored by this check yet. Exploration.",
+        "Trusted: rapid, x/time/rate, the accounting model. A refused increase that would fit is counted, not alarmed.",
+        "DESIGN.md 4/C08",
+    ),
+    "C09": (
+        "model-based testing of the real gateway-side limiter against a scripted limiter server with hostile replies (rapid state machines, ledger and window oracles)",
+        "Generated-input search: the real UpstreamLimiter in remote mode, driven synchronously by verif hooks, with a scripted server (readiness flips, client unavailable, allocate replies with quotas/bursts in {0,1,-1,-5,MinInt32,MaxInt32,around G,below G}, errors; for the count strategy arbitrary accept/limit/error answers with stale and reordered request times delivered to SetLimit). Oracles: in-flight ledger <= G at every admission, exact local fallback (L admitted from empty), granted quota takes effect, token-bucket windows per limiter segment. One listed open finding (local and remote counters are independent) relaxes the bound to G+L only for histories matching its signature. Exploration.",
+        "Trusted: rapid, fake gateway clientset, stub ClientSets. The 2 s reconcile loop, the counter worker and real heartbeats are replaced by synchronous hook calls; replies keep the schema's type.",
+        "DESIGN.md 4/C09",
+    ),
+    "C13": (
+        "property-based testing against an independent FNV-1a reference + model-based leadership histories + end-to-end routing through real client set and server handlers (rapid)",
+        "Generated-input search: (a) GetShardID vs an independent FNV-1a-32 for arbitrary names and N up to 2^20; the real gateway-side client set (hook-built, synced from real /ratelimit/endpoints replies) maps names to the same shard and addresses exactly the announced leader; (b) state-machine histories of leadership gain/loss/foreign leader with allocate/acquire/cluster-update calls on the real limiter (local and API-backed store) against a model of led shards; (d) 2-3 real limiter server handlers + real client set end to end. Exploration.",
+        "Trusted: rapid, net/http loopback, scripted elector (real lease election not exercised).",
+        "DESIGN.md 4/C13",
+    ),
+    "C18": (
+        "model-based testing of join/report/acquire/silence/cleanup/comeback histories on the real limiter (rapid state machine)",
+        "Generated-input search: histories over 4 instance identities (one of them 'ip:port'), 3 upstreams on 2 shards, local and API-backed store; after every cleanup pass (both periodic cleanups, driven by hook) the stores and global flow controls must hold exactly the state of the instances with a fresh heartbeat; recorded sums after the next report exclude reclaimed instances; freed in-flight capacity is grantable. Exploration; 'within the cleanup period' is checked as 'after one pass'.",
+        "Trusted: rapid, wall clock only to discard cases slower than 2.5 s (inconclusive, never a violation).",
+        "DESIGN.md 4/C18",
+    ),
+    "C19": (
+        "model-based testing with exhaustive crash-point enumeration per generated history and API fault injection by call index (rapid + fake API tracker)",
+        "Fault enumeration: for every generated history of save/delete/deleteUpstream/flush (+ foreign-shard saves) and injected API faults (conflict, transient failure, applied-but-reply-lost) the history is re-executed once per API call k with the store abandoned after call k, followed by a takeover (new store + Load); the model of acknowledged state decides what the new holder may find; write-through acknowledgements are checked against the API at once; periodic mode is checked for flush/stop. The crash index space is enumerated completely per history; histories are sampled.",
+        "Trusted: client-go object tracker as the API server (wrapped to behave like the real client on errors), rapid. Real etcd / process death are replaced by abandoning the store.",
+        "DESIGN.md 4/C19",
+    ),
 }
 
 PENDING = {}
